@@ -66,9 +66,9 @@ def sqrt_mod(a, p):
 class Cv:
     """curve parameters as VALUES (from the driver's probe event or a tiny world)"""
 
-    def __init__(self, spec, p, a, b, gx, gy, n, fb, pairf, pp=0, digs=16, w=8, cap=34):
+    def __init__(self, spec, p, a, b, gx, gy, n, fb, pairf, pp=0, digs=16, w=8, cap=34, qnr=-1):
         self.spec, self.p, self.a, self.b, self.gx, self.gy, self.n = spec, p, a, b, gx, gy, n
-        self.fb, self.pairf, self.pp, self.digs, self.w, self.cap = fb, pairf, pp, digs, w, cap
+        self.fb, self.pairf, self.pp, self.digs, self.w, self.cap, self.qnr = fb, pairf, pp, digs, w, cap, qnr
 
     def rhs(self, x):
         return (x * x * x + self.a * x + self.b) % self.p
@@ -124,7 +124,7 @@ def curve_from_probe(e):
     def val(raw):
         return from_le(raw) * rinv % p
     return Cv(e["curve"], p, val(e["ca"]), val(e["cb"]), val(e["G"]["x"]), val(e["G"]["y"]),
-              from_le(e["n"]["d"]), e["fb"], e["pairf"], e.get("pp", 0), e.get("bndigs", 16), e["w"], e.get("bncap", 34))
+              from_le(e["n"]["d"]), e["fb"], e["pairf"], e.get("pp", 0), e.get("bndigs", 16), e["w"], e.get("bncap", 34), e.get("qnr", -1))
 
 
 def tiny_curve(t, digs=4):
@@ -492,4 +492,187 @@ def gen_tiny_text(rng, tier):
                     continue
                 cases.append("bn_size_str %s %d" % (hx(v), radix))
                 cases.append("bn_write_str %s %d %d" % (hx(v), radix, len(nm)))
+    return cases
+
+
+# ------------------------------------------------------------------ points over F_p^2 (G2)
+class F2:
+    """F_p[i]/(i^2 = q) arithmetic, only to CHOOSE inputs (points with y in F_p)"""
+
+    def __init__(self, p, q):
+        self.p, self.q = p, q % p
+
+    def mul(self, a, b):
+        p = self.p
+        return ((a[0] * b[0] + self.q * a[1] * b[1]) % p, (a[0] * b[1] + a[1] * b[0]) % p)
+
+    def pw(self, a, e):
+        r = (1, 0)
+        while e:
+            if e & 1:
+                r = self.mul(r, a)
+            a = self.mul(a, a)
+            e >>= 1
+        return r
+
+    def cube_root(self, c, rng):
+        """a cube root of c in F_p^2 or None (Adleman-Manders-Miller on the 3-Sylow subgroup)"""
+        p = self.p
+        N = p * p - 1
+        if N % 3 or c == (0, 0):
+            return None
+        k, m = 0, N
+        while m % 3 == 0:
+            m //= 3
+            k += 1
+        if self.pw(c, N // 3) != (1, 0):
+            return None
+        while True:
+            g = (rng.randrange(p), rng.randrange(p))
+            if g != (0, 0) and self.pw(g, N // 3) != (1, 0):
+                break
+        z = self.pw(g, m)
+        zi = self.pw(z, 3 ** k - 1)
+        cur, e = self.pw(c, m), 0
+        for i in range(1, k):
+            for d in range(3):
+                t = self.mul(cur, self.pw(zi, d * 3 ** i))
+                if self.pw(t, 3 ** (k - 1 - i)) == (1, 0):
+                    e += d * 3 ** i
+                    cur = t
+                    break
+        if cur != (1, 0):
+            return None
+        a = pow(m, -1, 3)
+        b = (1 - a * m) // 3
+        r = self.mul(self.pw(z, (e * a // 3) % (3 ** k)), self.pw(c, b % N))
+        return r if self.pw(r, 3) == c else None
+
+
+def ep2_write_probe_cases(nk, rng, n):
+    """writer cases whose outputs give the generator affine coordinates of valid G2 points"""
+    ks = [1, 2, 3, n - 1] + [rng.randrange(1, n) for _ in range(nk)]
+    return ks
+
+
+def gen_ep2(pf, pts, rng, tier):
+    """pf: dict(p, fb, qnr, b2=(b0,b1), n); pts: affine G2 points ((x0,x1),(y0,y1)) harvested from the
+    library's own uncompressed writer (inputs only: every one of them is judged again by the spec)"""
+    quick = tier == "quick"
+    p, fb, n = pf["p"], pf["fb"], pf["n"]
+    c = "pf"
+    cases = []
+    top = (1 << (8 * fb)) - 1
+
+    def e2(v):
+        return be(v[0], fb) + be(v[1], fb)
+
+    def rd(bs):
+        cases.append("ep2_read_bin %s %s" % (c, hb(bs)))
+    # points with y in F_p (y1 = 0): y^2 = x^3 + b2  =>  x = cbrt(y^2 - b2)
+    f2 = F2(p, pf["qnr"])
+    special = []
+    y0 = 1
+    while len(special) < (2 if quick else 6) and y0 < 400:
+        y0 += 1
+        cc = ((y0 * y0 - pf["b2"][0]) % p, (-pf["b2"][1]) % p)
+        x = f2.cube_root(cc, rng)
+        if x is not None:
+            special.append((x, (y0, 0)))
+            special.append((x, (p - y0, 0)))
+    # ---- writers
+    toks = ["inf", "m1", "m2", "m3", "m%x" % (n - 1), "d1", "d%x" % rng.randrange(1, n)]
+    toks += ["m%x" % rng.randrange(1, n) for _ in range(2 if quick else 10)]
+    toks += ["x%x,%x,%x,%x" % (P[0][0], P[0][1], P[1][0], P[1][1]) for P in special]
+    for t in toks:
+        for pack in (0, 1):
+            size = 1 if t == "inf" else 1 + fb * (2 if pack else 4)
+            cases.append("ep2_size_bin %s %s %d" % (c, t, pack))
+            for ln in sorted({0, 1, size - 1, size, size + 1}):
+                cases.append("ep2_write_bin %s %s %d %d" % (c, t, pack, ln))
+    # ---- reader
+    rd(b"")
+    allpts = pts + special
+    for (x, y) in allpts:
+        ny = ((p - y[0]) % p, (p - y[1]) % p)
+        rd(b"\2" + e2(x))
+        rd(b"\3" + e2(x))
+        rd(b"\4" + e2(x) + e2(y))
+        rd(b"\4" + e2(x) + e2(ny))
+        rd(b"\4" + e2(x) + e2(((y[0] + 1) % p, y[1])))              # off the curve
+        rd(b"\4" + e2(y) + e2(x))
+    (x, y) = pts[len(pts) // 2]
+    for ln, body in ((1, b""), (2 * fb + 1, e2(x)), (4 * fb + 1, e2(x) + e2(y))):
+        for tag in range(256):                                        # every tag byte on a valid body
+            rd(bytes([tag]) + body)
+    full = e2(x) + e2(y) + b"\0\0\0"
+    lens = range(0, 4 * fb + 4) if not quick else sorted(set(range(0, 4)) | {fb, fb + 1, 2 * fb, 2 * fb + 2, 3 * fb + 1, 4 * fb,
+                                                                           4 * fb + 2, 4 * fb + 3} | {2 * fb + 1, 4 * fb + 1})
+    for tag in (0, 2, 3, 4):                                          # every length 0..L+2
+        for ln in lens:
+            rd((bytes([tag]) + full)[:ln])
+    for fullenc in (b"\4" + e2(x) + e2(y), b"\2" + e2(x), b"\3" + e2(x)):
+        muts = mutations(fullenc)
+        if quick:
+            muts = muts[:6] + rng.sample(muts[6:], 40)
+        for m in muts:
+            rd(m)
+    for bad in (p, p + 1, top):
+        if bad > top:
+            continue
+        for tag in (2, 3):
+            rd(bytes([tag]) + be(bad, fb) + be(x[1], fb))             # x0 >= p
+            rd(bytes([tag]) + be(x[0], fb) + be(bad, fb))             # x1 >= p
+        rd(b"\4" + be(bad, fb) + be(x[1], fb) + e2(y))
+        rd(b"\4" + e2(x) + be(bad, fb) + be(y[1], fb))
+        rd(b"\4" + e2(x) + be(y[0], fb) + be(bad, fb))
+    for _ in range(12 if quick else 60):                              # random abscissae: about half have no point
+        xr = (rng.randrange(p), rng.randrange(p))
+        rd(b"\2" + e2(xr))
+        rd(b"\3" + e2(xr))
+        rd(b"\4" + e2(xr) + e2(y))
+    for xr in ((0, 0), (1, 0), (0, 1), (p - 1, 0), (p - 1, p - 1)):
+        rd(b"\2" + e2(xr))
+        rd(b"\3" + e2(xr))
+        rd(b"\4" + e2(xr) + e2((0, 0)))
+    rd(b"\0" + b"\4" + e2(x) + e2(y))
+    rd(b"\4" + e2(x) + e2(y) + b"\0")
+    rd(b"\6" + e2(x) + e2(y))
+    return cases
+
+
+def gen_fp2_packed(cv, rng, tier):
+    """fp2 packed form of unitary elements: a0 || sign byte (fb + 1 bytes); needs fb > 1"""
+    quick = tier == "quick"
+    c, p, fb, q = cv.spec, cv.p, cv.fb, cv.qnr
+    if fb < 2 or q == 0:
+        return []
+    f2 = F2(p, q)
+    cases = []
+
+    def unitary(z):
+        n = (z[0] * z[0] - q * z[1] * z[1]) % p
+        cz = (z[0], (-z[1]) % p)
+        num = f2.mul(cz, cz)
+        ni = pow(n, -1, p)
+        return (num[0] * ni % p, num[1] * ni % p)
+    us = [(1, 0), (p - 1, 0), unitary((3, 5)), unitary((1, 1))]
+    us += [unitary((rng.randrange(1, p), rng.randrange(1, p))) for _ in range(2 if quick else 10)]
+    us += [(a[0], (-a[1]) % p) for a in us[2:4]]
+    top = (1 << (8 * fb)) - 1
+    for a in us:
+        tok = "%s,%s" % (hx(a[0]), hx(a[1]))
+        for ln in sorted({0, fb, fb + 1, fb + 2, 2 * fb}):
+            cases.append("fp2_write_bin %s %s %d 1" % (c, tok, ln))
+        for byte in (0, 1, 2, 3, 7, 0x80, 0xFF):
+            cases.append("fp2_read_bin %s %s" % (c, hb(be(a[0], fb) + bytes([byte]))))
+    for a in ((2, 3), (0, 1), (rng.randrange(p), rng.randrange(p))):          # not unitary: written in full
+        tok = "%s,%s" % (hx(a[0]), hx(a[1]))
+        for ln in (fb + 1, 2 * fb - 1, 2 * fb, 2 * fb + 1):
+            cases.append("fp2_write_bin %s %s %d 1" % (c, tok, ln))
+    for a0 in [0, 2, 3, p - 2, p, p + 1, top] + [rng.randrange(p) for _ in range(10 if quick else 60)]:
+        if a0 > top:
+            continue
+        for byte in (0, 1):
+            cases.append("fp2_read_bin %s %s" % (c, hb(be(a0, fb) + bytes([byte]))))
     return cases
